@@ -35,6 +35,8 @@ pub fn run() {
                     _ => c.then(None, re, fns[i]),
                 };
             }
+            // every other registration order is looked up through a CLONE of the configured collection
+            let c = if order[0] % 2 == 1 { c.clone() } else { c };
             for text in texts {
                 for kw in kws {
                     let ty = match kw { "given" => "Given", "when" => "When", _ => "Then" };
